@@ -274,8 +274,8 @@ mem_replace_arr(const void *src, const size_t src_size, const size_t repl_count,
 		// looking for first to replace
 		for (i = 0; i < repl_count; i ++) {
 			if (NULL != founded[i] &&
-			    (founded[i] < founded[first_idx] ||
-			    NULL == founded[first_idx])) {
+			    (NULL == founded[first_idx] ||
+			    founded[i] < founded[first_idx])) {
 				first_idx = i;
 			}
 		}
@@ -283,7 +283,7 @@ mem_replace_arr(const void *src, const size_t src_size, const size_t repl_count,
 			break; /* Should newer happen. */
 		// in founded
 		i = (size_t)(founded[first_idx] - src_cur_prev);
-		if (dst_max <= (dst_cur + (i + src_repl_counts[first_idx])))
+		if ((size_t)(dst_max - dst_cur) < (i + dst_repl_counts[first_idx]))
 			return (ENOBUFS);
 		memmove(dst_cur, src_cur_prev, i);
 		dst_cur += i;
@@ -303,8 +303,11 @@ mem_replace_arr(const void *src, const size_t src_size, const size_t repl_count,
 		}
 	} /* while */
 	src_cur = (src_buf + src_size);
-	memmove(dst_cur, src_cur_prev, (size_t)(src_cur - src_cur_prev));
-	dst_cur += (src_cur - src_cur_prev);
+	i = (size_t)(src_cur - src_cur_prev);
+	if ((size_t)(dst_max - dst_cur) < i)
+		return (ENOBUFS);
+	memmove(dst_cur, src_cur_prev, i);
+	dst_cur += i;
 
 	if (NULL != dst_size_ret) {
 		(*dst_size_ret) = (size_t)(dst_cur - dst_buf);
